@@ -22,6 +22,8 @@ pub struct Case {
     pub t_eval: Option<Vec<f64>>,
     pub dense: bool,
     pub zero_length: bool,
+    /// terminal event t = x0 + f*(xend-x0)
+    pub terminal_at: Option<f64>,
 }
 
 pub fn check(c: &Case) -> Outcome {
@@ -29,7 +31,10 @@ pub fn check(c: &Case) -> Outcome {
     let (x0, xend) = if c.zero_length { (sp.x0, sp.x0) } else { (sp.x0, sp.xend) };
     let prob = Prob::new(&c.prob, sp.x0, sp.xend);
     let n = prob.n;
-    let evs = vec![EvSpec { g: Ev::Const { v: 1.0 }, dir: 0, terminal: None }];
+    let mut evs = vec![EvSpec { g: Ev::Const { v: 1.0 }, dir: 0, terminal: None }];
+    if let Some(f) = c.terminal_at {
+        evs.push(EvSpec { g: Ev::Time { c: sp.x0 + f * (sp.xend - sp.x0) }, dir: 0, terminal: Some(1) });
+    }
     let mut instr = Instr::new(&prob, &evs);
     instr.dir = sp.dir();
     instr.use_jac = c.analytic_jac;
@@ -63,14 +68,24 @@ pub fn check(c: &Case) -> Outcome {
     if sol.njev as u64 != log.jac_calls {
         return Outcome::viol(format!("{}: njev={} but jac was called {} times", desc, sol.njev, log.jac_calls));
     }
-    let accepted = log.ev_calls.saturating_sub(1);
+    // one events() call per accepted step; root refinement of the terminal event adds calls at
+    // times inside the last step, i.e. after the strictly monotone prefix
+    let mut mono = 0usize;
+    for (k, t) in log.ev_t.iter().enumerate() {
+        if k == 0 || (t - log.ev_t[k - 1]) * sp.dir() > 0.0 {
+            mono = k + 1;
+        } else {
+            break;
+        }
+    }
+    let accepted = (mono as u64).saturating_sub(1);
     if sol.naccpt as u64 != accepted {
         return Outcome::viol(format!("{}: naccpt={} but {} accepted steps were handed to the output handler", desc, sol.naccpt, accepted));
     }
     if sol.nstep < sol.naccpt {
         return Outcome::viol(format!("{}: nstep={} < naccpt={}", desc, sol.nstep, sol.naccpt));
     }
-    if c.t_eval.is_none() && c.first_step.is_none() {
+    if c.t_eval.is_none() && c.first_step.is_none() && c.terminal_at.is_none() {
         // the handler merges step ends closer than its 1e-12 resolution: look at the real step sequence
         let close = log.ev_t.windows(2).any(|w| (w[1] - w[0]).abs() <= 4e-12);
         if !close && sol.t.len() != sol.naccpt + 1 {
@@ -92,27 +107,27 @@ pub fn strategy() -> BoxedStrategy<Case> {
         proptest::option::weighted(0.15, 1usize..40),
         proptest::option::weighted(0.25, t_eval_fracs(8)),
         any::<bool>(),
-        0u8..25,
+        (0u8..25, proptest::option::weighted(0.3, fr(0.05, 0.95))),
     )
-        .prop_map(|(prob, span, method, (rtol, atol), analytic_jac, first_step, max_steps, t_eval, dense, z)| {
+        .prop_map(|(prob, span, method, (rtol, atol), analytic_jac, first_step, max_steps, t_eval, dense, (z, terminal_at))| {
             let first_step = match (method, first_step) {
                 (Meth::RK4, Some(f)) => Some(f.max(0.004)),
                 (_, f) => f,
             };
-            Case { prob, span, method, rtol, atol, analytic_jac, first_step, max_steps, t_eval, dense, zero_length: z == 0 }
+            Case { prob, span, method, rtol, atol, analytic_jac, first_step, max_steps, t_eval, dense, zero_length: z == 0, terminal_at }
         })
         .boxed()
 }
 
 pub fn run(ctx: &Ctx, known: &[Known]) -> Report {
     let cases = match ctx.tier {
-        Tier::Quick => 60_000,
+        Tier::Quick => 250_000,
         Tier::Thorough => 2_000_000,
     };
     let stats = run_generated(ctx, "C18", "gen", &strategy, &check, cases, known);
     Report {
         id: "C18".into(),
-        rule: "cases = closed-form problems (n<=6) x spans x six methods x tolerances 1e-3..1e-9 (scalar/vector) x analytic or finite-difference Jacobian x first_step x max_steps x t_eval x dense, plus zero-length runs. Oracle: counters of an instrumented IVP (ode calls outside Jacobian differencing, jac calls, one events() call per accepted step through a never-crossing event function). Non-trivial = at least one rejected step, or an implicit method (njev/nlu exercised), or a zero-length run. Distinct = distinct canonical JSON.".into(),
+        rule: "cases = closed-form problems (n<=6) x spans x six methods x tolerances 1e-3..1e-9 (scalar/vector) x analytic or finite-difference Jacobian x first_step x max_steps x t_eval x dense x optional terminal time event, plus zero-length runs. Oracle: counters of an instrumented IVP (ode calls outside Jacobian differencing, jac calls, one events() call per accepted step through a never-crossing event function). Non-trivial = at least one rejected step, or an implicit method (njev/nlu exercised), or a zero-length run. Distinct = distinct canonical JSON.".into(),
         assumptions: vec!["right-hand-side evaluations made by the crate's default finite-difference Jacobian are identified by a flag set while IVP::jac runs".into()],
         min_nontrivial_frac: 0.3,
         stats,
